@@ -154,7 +154,23 @@ func solve(text string, solvers []solverSpec, timeout time.Duration) SolverResul
 			o := out.String()
 			first := strings.TrimSpace(strings.SplitN(o, "\n", 2)[0])
 			st := "unknown"
+			// an (error ...) printed BEFORE the verdict means the query was not the intended one
+			// (z3 goes on after an ill-sorted assert); one printed after it (get-value after
+			// unsat) is harmless
+			errBefore := false
+			for _, ln := range strings.Split(o, "\n") {
+				t := strings.TrimSpace(ln)
+				if t == "sat" || t == "unsat" || t == "unknown" {
+					break
+				}
+				if strings.Contains(t, "(error ") {
+					errBefore = true
+					break
+				}
+			}
 			switch {
+			case errBefore:
+				st = "error"
 			case first == "unsat":
 				st = "unsat"
 			case first == "sat":
@@ -269,6 +285,9 @@ func and(ts ...string) string {
 		if t == "true" || t == "" {
 			continue
 		}
+		if t == "false" {
+			return "false"
+		}
 		xs = append(xs, t)
 	}
 	switch len(xs) {
@@ -293,6 +312,9 @@ func not(t string) string {
 func implies(a, b string) string {
 	if a == "true" {
 		return b
+	}
+	if a == "false" {
+		return "true"
 	}
 	return "(=> " + a + " " + b + ")"
 }
